@@ -362,6 +362,14 @@ func c12Run(ctx *runCtx) int {
 		"a client iteration that logged '[ERROR] Failed to fetch data' because of a timeout / connection error is inconclusive, any other error is a violation",
 	}
 	batches := c12Batches(ctx.seed, ctx.tier)
+	// iterations whose cursor table is compacted away while they are paused (c12_mid.go)
+	midRounds := 9
+	if ctx.tier == "thorough" {
+		midRounds = 90
+	}
+	for i, cfg := range []string{"N=1 R=1 P=1 ts=4096", "N=2 R=2 P=3 ts=4096", "N=3 R=1 P=7 ts=2048"} {
+		batches = append(batches, batch{Spec: fmt.Sprintf("mid %s rounds=%d seed=%d", cfg, midRounds, ctx.seed*100+int64(i)), Timeout: 20 * time.Minute})
+	}
 	parallel := 6
 	results := runBatches(ctx, batches, parallel, func(b batch, res batchResult, tail string) {
 		if res.Merged && res.ExitCode == 4 {
@@ -395,6 +403,10 @@ func c12Run(ctx *runCtx) int {
 }
 
 func c12Child(ctx *runCtx, spec string) {
+	if strings.HasPrefix(spec, "mid ") {
+		c12MidChild(ctx, spec)
+		return
+	}
 	var s c12Spec
 	if err := json.Unmarshal([]byte(spec), &s); err != nil {
 		fmt.Fprintln(os.Stderr, "bad spec:", err)
